@@ -25,6 +25,15 @@ def build_cases(rng, tier):
         elif r.chance(30):
             c['extra_options'] = ["array"]
         c['cc_extra'] = r.pick([[], [], ["-DYY_BUF_SIZE=16"], ["-DYY_BUF_SIZE=64"], ["-DYY_BUF_SIZE=7"]]) if be in ('nr', 'r', 'cxx') else []
+        if i % 7 == 3:
+            # in-memory sources (yy_scan_bytes; further ones supplied the same way by yywrap), %pointer, actions with yymore():
+            # the end of such a buffer is not followed by a read
+            be = r.pick(['nr', 'r'])
+            c = streamprog.gen_stream_case(r, "e%d" % i, {'edit', 'more'} if i % 2 else {'edit', 'more', 'wrap'}, backend=be,
+                                           flex_opts=r.pick([[], ["-Cf"], ["-Ce"], ["-B"], ["-I"]]))
+            c['cc_extra'] = []
+        if c['backend'] in ('nr', 'r') and (i % 7 == 3 or r.chance(15)) and not c.get('runs'):
+            c['runs'] = [{'sessions': [srcs], 'mode': 'b'} for srcs in c['sources']]
         cases.append(c)
     return cases
 
